@@ -36,24 +36,25 @@ type Gen struct {
 	Token  string   // a token valid for the source, if known
 	OwnID  [20]byte // the server's own ID (used as a hostile sender ID)
 	Corpus [][]byte
+	// When set, well-formed "k" fields use this key half of the time (so that replies to a
+	// mutable get name the key the getter asked for).
+	K []byte
+	malformLeft int
 	// How many more deliberately expensive inputs (64 MiB length prefixes, 20000-deep nesting: each
 	// costs seconds under the race detector) may be produced.
 	Costly int
 }
 
+// shape picks how the next field is rendered. Every message has a small budget of malformed
+// fields (0-3): a message in which every field is independently broken never gets past the strict
+// bencode decoder, and the handlers behind it would go unexercised.
 func (g *Gen) shape() int {
-	// Good is the most common so that messages get deep into the handlers.
-	switch g.R.Intn(10) {
-	case 0, 1:
+	if g.malformLeft > 0 && g.R.Intn(6) == 0 {
+		g.malformLeft--
+		return gen.Pick(g.R, []int{WrongType, WrongLen, Extreme, Junk})
+	}
+	if g.R.Intn(10) < 3 {
 		return Absent
-	case 2:
-		return WrongType
-	case 3:
-		return WrongLen
-	case 4:
-		return Extreme
-	case 5:
-		return Junk
 	}
 	return Good
 }
@@ -115,6 +116,9 @@ func (g *Gen) fixedStr(d benc.Dict, key string, n int, sig *[]string) {
 	case Absent:
 	case Good:
 		d[key] = string(g.R.Bytes(n))
+		if key == "k" && len(g.K) == n && g.R.Bool() {
+			d[key] = string(g.K)
+		}
 	case WrongType:
 		d[key] = g.wrongType(true)
 	case WrongLen:
@@ -319,6 +323,7 @@ func (g *Gen) errVal(sig *[]string) any {
 // Structured returns a KRPC-shaped dictionary. kind: "q", "r", "e" or "" for any.
 func (g *Gen) Structured(kind string) (b []byte, signature string) {
 	var sig []string
+	g.malformLeft = gen.Pick(g.R, []int{0, 0, 1, 1, 1, 2, 3})
 	m := benc.Dict{}
 	y := kind
 	if y == "" {
@@ -562,3 +567,55 @@ func LoadCorpus(dirs ...string) (out [][]byte) {
 }
 
 var _ = fmt.Sprint
+
+
+// Reply builds a hostile reply to one of the node's own queries: the right transaction ID (so that
+// it is matched), and an arbitrary subset of response fields present, absent or malformed; or an
+// error / unknown-typed message. nodes lets the caller steer a traversal towards more simulated
+// peers (used for the well-formed variants of the nodes field).
+func (g *Gen) Reply(t string, nodes string, nodes6 string) ([]byte, string) {
+	var sig []string
+	g.malformLeft = gen.Pick(g.R, []int{0, 0, 1, 1, 2})
+	switch g.R.Intn(12) {
+	case 0:
+		return benc.Encode(benc.Dict{"y": "e", "t": t, "e": g.errVal(&sig)}), "e:" + strings.Join(sig, ",")
+	case 1:
+		return benc.Encode(benc.Dict{"y": gen.Pick(g.R, []string{"x", "", "rr"}), "t": t, "r": g.ret(&sig)}), "unknown-y"
+	case 2:
+		return benc.Encode(benc.Dict{"y": "r", "t": t}), "r-absent"
+	case 3:
+		return benc.Encode(benc.Dict{"y": "r", "t": t, "r": gen.Pick(g.R, []any{"str", int64(1), benc.List{}})}), "r-wrong-type"
+	}
+	r := g.ret(&sig)
+	if g.R.Intn(3) != 0 {
+		r["id"] = string(g.R.Bytes(20))
+	}
+	if g.R.Intn(3) == 0 {
+		r["nodes"] = nodes
+	}
+	if g.R.Intn(3) == 0 {
+		r["nodes6"] = nodes6
+	}
+	m := benc.Dict{"y": "r", "t": t, "r": r}
+	if g.R.Intn(5) == 0 {
+		m["ro"] = int64(1)
+	}
+	return benc.Encode(m), "r:" + strings.Join(sig, ",")
+}
+
+
+// Write builds an announce_peer or put that carries the valid token (so that it gets past the token
+// check into the part of the handler that uses the arguments), with every other field shaped like
+// in Structured.
+func (g *Gen) Write() ([]byte, string) {
+	var sig []string
+	g.malformLeft = gen.Pick(g.R, []int{0, 0, 1, 1, 2})
+	q := gen.Pick(g.R, []string{"announce_peer", "put"})
+	a := g.args(&sig)
+	a["token"] = g.Token
+	if _, ok := a["id"].(string); !ok || len(a["id"].(string)) != 20 {
+		a["id"] = string(g.R.Bytes(20))
+	}
+	m := benc.Dict{"y": "q", "q": q, "t": string(g.R.Bytes(2)), "a": a}
+	return benc.Encode(m), "write:" + q + "," + strings.Join(sig, ",")
+}
